@@ -831,6 +831,13 @@ func oracle(sti any, f []string, out string) (string, string) {
 		if want := encPlain(refParse(src)); want != out {
 			return "parse", fmt.Sprintf("Parse(%q) = %s, want %s", src, out, want)
 		}
+		// C23_parse_print on the real segments: valid UTF-8 without escapes prints back as
+		// the string with runs of / and of two or more * squeezed
+		if utf8.ValidString(src) && !strings.Contains(src, "\\") {
+			if got, want := printPlain(out), squeezeRuns(src); got != want {
+				return "parse-print", fmt.Sprintf("Parse(%q) prints back as %q, want %q", src, got, want)
+			}
+		}
 		return "", ""
 	case "glob":
 		mode, tree, cwd, pat := f[1], f[2], common.Unhex(f[4]), f[5]
@@ -852,6 +859,50 @@ func oracle(sti any, f []string, out string) (string, string) {
 		return class, detail
 	}
 	return "", ""
+}
+
+// printPlain writes segments in showGlobSegs form back as a pattern string.
+func printPlain(enc string) string {
+	if enc == "-" {
+		return ""
+	}
+	var sb strings.Builder
+	for _, p := range strings.Split(enc, ",") {
+		switch p[0] {
+		case 'L':
+			sb.WriteString(common.Unhex(p[1:]))
+		case 'S':
+			sb.WriteByte('/')
+		case 'Q':
+			sb.WriteByte('?')
+		case 'A':
+			sb.WriteByte('*')
+		case 'D':
+			sb.WriteString("**")
+		}
+	}
+	return sb.String()
+}
+
+// squeezeRuns: every run of '/' becomes one, every run of two or more '*' becomes "**".
+func squeezeRuns(s string) string {
+	var sb strings.Builder
+	for i := 0; i < len(s); {
+		j := i
+		for j < len(s) && s[j] == s[i] {
+			j++
+		}
+		switch {
+		case s[i] == '/':
+			sb.WriteByte('/')
+		case s[i] == '*' && j-i >= 2:
+			sb.WriteString("**")
+		default:
+			sb.WriteString(s[i:j])
+		}
+		i = j
+	}
+	return sb.String()
 }
 
 func encPlain(segs []seg) string {
@@ -1473,7 +1524,11 @@ func renderPattern(segs []seg) (string, bool) {
 func features(mode string, segs []seg, m mods, out string) string {
 	nss, hidden, restricted, q, star := 0, false, false, false, false
 	dotdot, trailing, abs := false, false, false
+	relink := false // a literal component `up` or `..` after a `**`: the walk re-descends (depth = pattern × tree)
 	for i, s := range segs {
+		if s.k == 'L' && (s.lit == "up" || s.lit == "..") && nss > 0 {
+			relink = true
+		}
 		switch {
 		case s.k == 'W':
 			if s.wt == 'd' {
@@ -1505,6 +1560,8 @@ func features(mode string, segs []seg, m mods, out string) string {
 		return mode + ":restricted-star-after-star"
 	case invalidLiteralAfterStar(segs):
 		return mode + ":invalid-utf8-literal-after-star"
+	case nss >= 2 && relink:
+		return mode + ":starstar-again-after-link-or-dotdot"
 	case nss >= 2:
 		return mode + ":several-starstar"
 	case len(m.buts) > 0:
@@ -1539,7 +1596,8 @@ func run(c *common.Ctx) error {
 			"symbolic links to files/directories/nothing/themselves, relative and absolute) × random patterns derived from their names " +
 			"(?, *, **, several **, matcher-restricted wildcards, match-hidden, literal ., .., links, trailing slash, absolute) through glob.Pattern.Glob (G), " +
 			"glob.Glob on the pattern string (P) and elvish wildcard expressions with nomatch-ok/but:/type: (E); plus a flat directory with every name " +
-			"over {a,b,.} × every slash-free pattern of bounded length over {a,b,.,?,?[set:a],*,*[set:b],*[match-hidden],**}; plus glob.Parse on short strings. " +
+			"over {a,b,.} × every slash-free pattern of bounded length over {a,b,.,?,?[set:a],*,*[set:b],*[match-hidden],**}; plus glob.Parse on short strings; " +
+			"plus chains of 3–9 directories with a link back up × `**/up/` or `**/../` repeated 1–3 times (recursion depth = pattern length × tree depth). " +
 			"non-trivial = everything except parse ops of ≤1 byte; distinct by op line",
 		ExhaustiveNote: "element matching: all names over {a,b,.} of length ≤4 × all slash-free patterns of ≤3 (quick) / ≤4 (thorough) segments; glob.Parse: all strings of ≤4 symbols over {a,*,?,/,\\}",
 		NewState:       newState,
@@ -1693,5 +1751,43 @@ func gen(c *common.Ctx, emit func(...string)) {
 			}
 			emit("glob", mode, tree, absHex, common.Hex(cwd), pat, encMods(m))
 		}
+	}
+	// 4. deep chains with a link back up: the recursion depth of glob is pattern length × tree depth
+	// (C23_glob_fuel_sufficient; the round-1 driver fuel was additive and too small for these)
+	for i := c.Scale(12, 200); i > 0; i-- {
+		d := r.Range(3, 9)
+		t := &gtree{es: []entry{{path: "r", kind: 'd'}}}
+		p := "r"
+		for j := 0; j < d; j++ {
+			p += "/" + common.Pick(r, []string{"a", "b"})
+			t.es = append(t.es, entry{path: p, kind: 'd'})
+		}
+		up := r.Range(1, d)
+		target := strings.TrimSuffix(strings.Repeat("../", up), "/")
+		if r.Chance(1, 4) {
+			target = absPH + "/r"
+		}
+		t.es = append(t.es, entry{path: p + "/up", kind: 'l', target: target})
+		var segs []seg
+		for k := r.Range(1, 3); k > 0; k-- {
+			segs = append(segs, seg{k: 'W', wt: 'd'}, seg{k: 'S'})
+			if r.Chance(1, 3) {
+				// one level only: `**/` is at least one level below the working directory, so the
+				// walk stays inside the tree (the generator must never leave it)
+				segs = append(segs, seg{k: 'L', lit: ".."}, seg{k: 'S'})
+			} else {
+				segs = append(segs, seg{k: 'L', lit: "up"}, seg{k: 'S'})
+			}
+		}
+		segs = append(segs, common.Pick(r, []seg{{k: 'W', wt: 'd'}, {k: 'W', wt: 's'}, {k: 'L', lit: "a"}}))
+		mode, pat := common.Pick(r, []string{"G", "E", "P"}), encSegs(segs)
+		if mode == "P" {
+			if str, ok := renderPattern(segs); ok {
+				pat = "P" + common.Hex(str)
+			} else {
+				mode = "G"
+			}
+		}
+		emit("glob", mode, encTree(t.es), absHex, common.Hex("r"), pat, "0.-.-")
 	}
 }
